@@ -48,6 +48,7 @@ ChunkLaw ==
         lens == ChunkLens(case.n, case.c)
     IN /\ \A st \in Styles : LET s == Chunked(b, case.c, st) IN
                                /\ ValidChunked(s)
+                               /\ Parse(s).finished
                                /\ Parse(s).body = b
        /\ Len(Chunked(b, case.c, "plain")) = FramedLen(case.n, case.c)
        /\ Len(lens) = NumChunks(case.n, case.c)
@@ -67,6 +68,7 @@ ChunkLaw ==
 StreamLaw ==
   case.kind \in {"mutant", "short"} =>
     LET P == Parse(case.stream) IN
+    /\ P.finished
     /\ P.ok => /\ P.used <= Len(case.stream)
                /\ Len(P.body) <= Len(case.stream)
                /\ \A i \in 1..Len(P.body) : P.body[i] \in Rng(case.stream)
